@@ -453,18 +453,31 @@ class History:
 
 # --------------------------------------------------------------------------- known findings
 def replay_known(run, entries):
-    """replay each open entry's witness on the implementation; returns (fixed_root, wide_present)"""
+    """open entries: replay the witness, print KNOWN-FINDING while the defect is present.
+    fixed entries: the REPAIRED behaviour is forced (no probing): the old witness is a corpus case that
+    must pass; a regression is reported as a VIOLATION (here and by the model/spec comparison, which
+    always uses the repaired root-view variant).  returns (fixed_root, wide_present)"""
     fixed_root, wide_present = True, False
     for e in entries:
-        if e.get("status") != "open":
-            continue
+        status = e.get("status")
         if e["class"] == "K_rootitems":
             t = tree_from_json(e["witness"]["tree"])
-            got = [list(vp) for _, (vp, _) in t.trie().items()]
-            if got != [list(p) for p, _ in t.paths()]:
-                fixed_root = False
-                run.known(e["what"])
-        elif e["class"] == "K_wide":
+            got = [(list(k), list(vp)) for k, (vp, _) in t.trie().items()]
+            vals = [list(vp) for vp, _ in t.trie().values()]
+            want = [list(p) for p, _ in t.paths()]
+            broken = got != [(p, p) for p in want] or vals != want
+            if status == "open":
+                if broken:
+                    fixed_root = False
+                    run.known(e["what"])
+            elif broken and hasattr(run, "violation"):
+                run.violation({"kind": "regression of a fixed finding (corpus case)", "finding": e["key"],
+                               "commit": e.get("commit"),
+                               "witness": {"statement": "trie_view(root items)", "class": "K_rootitems",
+                                           "detail": {"tree": e["witness"]["tree"],
+                                                      "impl_items": got[:8], "spec_paths": want[:8]}},
+                               "how_to_replay": "./check C16 --replay <this file>"})
+        elif e["class"] == "K_wide" and status == "open":
             n = e["witness"]["children"]
             t = T("<a>", [T(str(i), []) for i in range(n)])
             if len(t.trie().keys()) != len(t.paths()):
@@ -511,7 +524,9 @@ def run(run):
     entries = own_findings()
     fixed_root, wide_present = replay_known(run, entries)
     open_classes = {e["class"] for e in entries if e.get("status") == "open"}
-    run.cov["root_view_variant"] = "fixed" if fixed_root else "pinned (value paths cut to last index)"
+    run.cov["root_view_variant"] = ("repaired (forced: finding trie-root-items is fixed)" if fixed_root
+                                     else "defective (open finding K_rootitems still present)")
+    run.cov["corpus_cases"] = [e["key"] for e in entries if e.get("status") == "fixed"]
 
     ncases = 160 if thorough else 30
     max_ops = 30 if thorough else 11
